@@ -197,7 +197,9 @@ func ZZ_Mut_Track() {
 		{klog.EntrySummary{"not an entry " + dg}, false, parser.ZZEntry{}},
 	}
 	c := cases[zz.Choose(len(cases))]
-	run := func(ctx *zzContext) app.Error { return (&Track{Entry: append(klog.EntrySummary{}, c.entry...)}).Run(ctx) }
+	run := func(ctx *zzContext) app.Error {
+		return (&Track{Entry: append(klog.EntrySummary{}, c.entry...)}).Run(ctx)
+	}
 	err := run(m.ctx)
 	zz.Observe("ok", err == nil)
 	// C05: failure leaves the file untouched, success leaves a valid file
@@ -739,6 +741,17 @@ func ZZ_C11_Election() {
 		if same(usedEol) {
 			zz.Assert(zzEnding(l) == usedEol[0], "unanimous-line-ending-is-used")
 		}
+		// with or without agreement: a style that the file's records use, never one nobody uses
+		okInd, okEol := false, false
+		for _, u := range usedInd {
+			if len(l) > len(u) && l[:len(u)] == u && l[len(u)] != ' ' && l[len(u)] != '\t' {
+				okInd = true
+			}
+		}
+		for _, u := range usedEol {
+			okEol = okEol || zzEnding(l) == u
+		}
+		zz.Assert(okInd && okEol, "inserted-style-is-one-the-file-uses")
 	}
 	// determinism under every iteration order of the vote maps
 	zz.MapOrderNondet(true)
@@ -795,6 +808,15 @@ func ZZ_Mut_Layouts() {
 	case 4: // plain
 		body += ind + dg + "m" + eol
 	}
+	// mixed line endings: the record's last line may end differently from its date line
+	lastEol := eol
+	if zz.Choose(2) == 1 {
+		lastEol = "\n"
+		if eol == "\n" {
+			lastEol = "\r\n"
+		}
+		body = body[:len(body)-len(eol)] + lastEol
+	}
 	pre := []string{"", eol, "    " + eol, "\t" + eol + eol}[zz.Choose(4)]
 	post := ""
 	switch zz.Choose(4) {
@@ -811,7 +833,7 @@ func ZZ_Mut_Layouts() {
 	}
 	file := pre + body + post
 	if post == "" && zz.Choose(2) == 1 {
-		file = file[:len(file)-len(eol)] // no final newline
+		file = file[:len(file)-len(lastEol)] // no final newline
 	}
 	now := gotime.Date(2020, 1, 1, 12, 0, 0, 0, gotime.UTC)
 	ctx := newZZContext(file, now)
